@@ -63,6 +63,9 @@ type specColl struct {
 	txns     map[string]*specTxn
 	lastDump string
 	logger   string
+	// a key was written to a dead offset (D10): the key table may hold entries of rows that are
+	// not live, and DeleteKey/UpsertKey of such a key touch chunks this interpreter cannot predict
+	staleKeys bool
 }
 
 type oracleFailure struct {
@@ -77,6 +80,7 @@ var propClasses = map[string][]string{
 	"C04": {"filter", "panic"},
 	"C06": {"replica", "panic"},
 	"C07": {"restore", "panic"},
+	"C09": {"values", "panic"},
 	"C11": {"offsets", "count", "fresh", "panic"},
 	"C12": {"keys", "panic"},
 	"C15": {"emit", "panic"},
@@ -390,6 +394,7 @@ func specRun(c Case, out []string) (fails []oracleFailure, taints map[string]int
 	snapTaint := map[string]bool{}
 	pendingRestore := map[string]string{}
 	emittedSince := map[string]int{}
+	replicaSynced := false // r has replayed everything p emitted so far
 	for i, line := range c.Lines {
 		o := out[i]
 		if o == "panic" || strings.HasPrefix(o, "panic:") {
@@ -488,7 +493,7 @@ func specRun(c Case, out []string) (fails []oracleFailure, taints map[string]int
 				}
 			}
 			if cid == "r" {
-				if p, ok := colls["p"]; ok && p.lastDump != "" && !tainted["p"] && !tainted["r"] && emittedSince["p"] == 0 {
+				if p, ok := colls["p"]; ok && p.lastDump != "" && !tainted["p"] && !tainted["r"] && emittedSince["p"] == 0 && replicaSynced {
 					if dumpCore(o) != p.lastDump {
 						fail("replica", "line %d: the replica differs from the primary\n   primary: %s\n   replica: %s", i, clip(p.lastDump, 300), clip(dumpCore(o), 300))
 					}
@@ -546,6 +551,9 @@ func specRun(c Case, out []string) (fails []oracleFailure, taints map[string]int
 			if !strings.HasPrefix(o, "replayed=") {
 				fail("replica", "line %d: Replay failed: %s", i, o)
 			}
+			if cid == "r" && rest[1] == "p" {
+				replicaSynced = strings.HasPrefix(o, "replayed=")
+			}
 			if src, ok := colls[rest[1]]; ok {
 				sc.rows = map[uint32]map[string][]byte{}
 				for off, r := range src.rows {
@@ -569,6 +577,7 @@ func specRun(c Case, out []string) (fails []oracleFailure, taints map[string]int
 			}
 			if cid == "p" {
 				emittedSince["p"]++
+				replicaSynced = false
 			}
 		case "count":
 		default:
@@ -578,6 +587,7 @@ func specRun(c Case, out []string) (fails []oracleFailure, taints map[string]int
 			}
 			if rest[1] != "select" && cid == "p" {
 				emittedSince["p"]++
+				replicaSynced = false
 			}
 			specTxnLine(cid, sc, t, rest[1:], o, i, fail, taint, tainted)
 		}
@@ -818,6 +828,9 @@ func specCommit(cid string, sc *specColl, t *specTxn, o string, i int,
 			_, live := sc.rows[ch.off]
 			if del[ch.off] || (!live && !insSoFar[ch.off]) {
 				taint(cid, "D10")
+				if ch.what == "key" {
+					sc.staleKeys = true
+				}
 			}
 		}
 	}
@@ -907,7 +920,7 @@ func specCommit(cid string, sc *specColl, t *specTxn, o string, i int,
 				got, _ = strconv.Atoi(f[8:])
 			}
 		}
-		if got != want {
+		if got != want && !sc.staleKeys {
 			fail("emit", "line %d: the transaction changed %d chunk(s) but %d commit(s) were emitted (%s)", i, want, got, clip(o, 100))
 		}
 		// ascending chunk order, each once
